@@ -762,6 +762,32 @@ def lfrc_rules(ctx):
 
 
 # ---------------------------------------------------------------------------------------------------------------
+def deleter_rules(ctx):
+    """a retired node is destroyed by the deleter stored in it - the deleter usually frees the very storage it is stored in"""
+    rid = "DEL.delete-self"
+    ctx.rule(rid, "deletable_object_with_non_empty_deleter::delete_self: the stored deleter is moved into a local, the stored copy is destroyed, and only then the LOCAL "
+                  "deleter is invoked (the invocation normally frees the node and with it the storage of the stored deleter); set_deleter constructs into the same buffer")
+    pat = R + "detail::deletable_object_with_non_empty_deleter::delete_self"
+    n = 0
+    for fn in flow._shapes(ctx, pat):
+        inv = [e for b, i, e, nn in fn.events() if nn["k"] == "call" and nn.get("callee", "").endswith("::operator()")]
+        dts = [e for b, i, e, nn in fn.events() if nn["k"] == "call" and "::~" in nn.get("callee", "") and fn.kids(e) and fn.field_of(fn.kids(e)[0]).endswith("_deleter_buffer")]
+        if not inv:
+            ctx.bad(rid, pat + "#invokes", "delete_self does not invoke a deleter", fn.where(), fn=fn)
+            continue
+        n += 1
+        for e in inv:
+            obj = fn.kids(e)[0]
+            in_place = fn.field_of(obj).endswith("_deleter_buffer")
+            ok = not in_place and bool(dts) and all(fn.before(d, e) for d in dts) and flow.has_src(fn, obj, "field:_deleter_buffer")
+            ctx.check(ok, rid, pat + "#local-copy-invoked-after-destroying-stored", "the deleter is moved out, the stored copy destroyed, then the local copy invoked",
+                      ("the stored deleter is invoked in place" if in_place else "the stored deleter is not destroyed before the invocation / the invoked deleter is not the stored one") +
+                      ": the invocation frees the node that contains the deleter's storage, so the deleter's destructor afterwards runs on released memory (and on another "
+                      "node's deleter once the block is re-used)", fn.where(e), fn=fn)
+    if n == 0:
+        ctx.broken.append("delete_self of nodes with a stateful deleter is not instantiated")
+
+
 def list_push_rules(ctx):
     """lock-free stack push idiom shared by all hand-over lists"""
     from .harris import _reaches_without
